@@ -37,7 +37,7 @@ class C34(Prop):
         "or several components, or in the pre-release only). Non-trivial = a version with a pre-release segment, or a pair differing in >=2 components."
     )
     assumptions = [
-        "round-trip law asserted for three-component releases only (semver is MAJOR.MINOR.PATCH by definition); other lengths are generated for the classifier",
+        "the PEP 440 -> semver -> PEP 440 round trip is asserted for release tuples of 1-4 components; the MAJOR.MINOR.PATCH shape of the semver form is asserted for three-component releases only; pre-releases are generated on three-component releases only (the documented forms are X.Y.Z-label.N; a pre-release on a shorter or longer release has no semver form and the converter's pattern does not claim it)",
         "packaging.version.Version is the normalisation / ordering reference",
     ]
     budgets = {"quick": 5000, "thorough": 50000}
@@ -61,6 +61,8 @@ class C34(Prop):
         )
         return st.one_of(
             st.fixed_dictionaries({"k": st.just("p2s"), "v": _pep()}),
+            # release tuples of 1, 2 or 4 components: the round-trip law holds for them too (the semver shape is judged for three only)
+            st.fixed_dictionaries({"k": st.just("p2s"), "v": _pep((1, 4)).map(lambda d: d if len(d["rel"]) == 3 else dict(d, pre=None))}),
             st.fixed_dictionaries({"k": st.just("s2p"), "rel": st.lists(_num, min_size=3, max_size=3), "pre": st.one_of(st.none(), st.tuples(st.sampled_from(["a", "b", "rc"]), st.integers(0, 999)))}),
             pair,
             pair,
@@ -88,8 +90,10 @@ class C34(Prop):
             # the semver form has the documented shape
             import re
 
-            if not re.fullmatch(r"\d+\.\d+\.\d+(-(a|b|rc)\.\d+)?", sem):
+            if len(case["v"]["rel"]) == 3 and not re.fullmatch(r"\d+\.\d+\.\d+(-(a|b|rc)\.\d+)?", sem):
                 r.v("semver_shape", v=s, semver=sem)
+            if len(case["v"]["rel"]) != 3:
+                r.classes.append("p2s_release_not_three_components")
             r.nontrivial = case["v"]["pre"] is not None
         elif case["k"] == "s2p":
             s = ".".join(str(x) for x in case["rel"])
